@@ -63,7 +63,7 @@ func Check(c *Case, h *Hist) []Finding {
 	jobs := c.effectiveJobs()
 	J := len(jobs)
 	started := func(j int) bool { return h.Starts[j].Load() > 0 }
-	rootDerived := func(j int) bool { return jobs[j].Ctx != CBack }
+	rootDerived := func(j int) bool { return jobs[j].Ctx == CRoot || jobs[j].Ctx == CChild }
 
 	// ---- C01: dependencies first, at most once -------------------------
 	for j := 0; j < J; j++ {
@@ -428,7 +428,7 @@ func NonTrivial(prop string, c *Case, h *Hist) bool {
 			return false
 		}
 		for j := 0; j < J; j++ {
-			if h.Starts[j].Load() == 0 && jobs[j].Ctx != CBack {
+			if h.Starts[j].Load() == 0 && (jobs[j].Ctx == CRoot || jobs[j].Ctx == CChild) {
 				return true
 			}
 		}
